@@ -41,7 +41,11 @@ fn cmp_ev(w: &mut TraceWriter, rt: &tokio::runtime::Runtime, cur: u32, b: u32) {
         ixfr_decision(rt, cur, b)
     }))
     .unwrap_or_else(|_| "panic".to_string());
-    w.event(json!({"ev": "cmp", "b": limbs(b), "ixfr": ixfr,
+    let ixfr_nodiffs = std::panic::catch_unwind(std::panic::AssertUnwindSafe(|| {
+        ixfr_decision_with(rt, cur, b, false)
+    }))
+    .unwrap_or_else(|_| "panic".to_string());
+    w.event(json!({"ev": "cmp", "b": limbs(b), "ixfr": ixfr, "ixfrnodiffs": ixfr_nodiffs,
         "serial": lib_cmp(cur, b), "rev": lib_cmp(b, cur),
         "timestamp": lib_ts_cmp(cur, b), "newserial": lib_new_cmp(cur, b),
         "newts": lib_newts_cmp(cur, b), "newtsrev": lib_newts_cmp(b, cur),
